@@ -46,7 +46,10 @@ def check_c02(case, stats):
   pool = np.array(case['pool'], dtype=float)
   idx = np.array(case['pairs'], dtype=int)
   data = gen.Data(m['desc'])
-  params = E.materialize(name, m['opts'], data, m['aseed'], {'preprocessor': pool})
+  # the array preprocessor holds the pool in its drawn dtype when the pool is integral (indices then form
+  # integer-dtype tuples inside the library)
+  prep = pool.astype(case['dtype']) if case['integral'] else pool
+  params = E.materialize(name, m['opts'], data, m['aseed'], {'preprocessor': prep})
   est = E.build(name, params)
   r = E.fit_call('C02/fit', name, est, E.fit_args(name, data), m['desc'], params,
                  expect=(RuntimeError,) if 'SDML' in name else ())
